@@ -802,7 +802,12 @@ func (self *PathNode) handleChild(in *[]PathNode, lp *int, cp *int, p *thrift.Bi
 	var l = *lp
 	guardPathNodeSlice(&con, l)
 	if l >= len(con) {
+		n := len(con)
 		con = con[:l+1]
+		// slots skipped over (children stored by id or hash) must not expose the nodes of a previous load
+		for i := n; i < l; i++ {
+			con[i] = PathNode{}
+		}
 	}
 	v := &con[l]
 	l += 1
@@ -1193,6 +1198,10 @@ func (self *PathNode) scanChildren(p *thrift.BinaryProtocol, recurse bool, opts 
 				guardPathNodeSlice(&con, N-1)
 				conAddr = *(*unsafe.Pointer)(unsafe.Pointer(&con))
 				c = N
+				// the hash table must start empty when the slice is reused
+				for i, tab := 0, con[:N]; i < N; i++ {
+					tab[i] = PathNode{}
+				}
 			}
 			for i := 0; i < size; i++ {
 				key, e := p.ReadString(false)
@@ -1217,6 +1226,10 @@ func (self *PathNode) scanChildren(p *thrift.BinaryProtocol, recurse bool, opts 
 				guardPathNodeSlice(&con, N-1)
 				conAddr = *(*unsafe.Pointer)(unsafe.Pointer(&con))
 				c = N
+				// the hash table must start empty when the slice is reused
+				for i, tab := 0, con[:N]; i < N; i++ {
+					tab[i] = PathNode{}
+				}
 			}
 			for i := 0; i < size; i++ {
 				key, e := p.ReadInt(kt)
